@@ -137,16 +137,22 @@ def render(cname, E, I, grouping, igroup, rng, subst=None):
     if igroup == 'single-first': allb = [('ic', b) for b in iblocks] + [('cell', b) for b in blocks]
     else: rng.shuffle(allb)
     kinds = {i: k for i, (k, _, _) in CIRCUITS[cname][2].items()}
+
+    def delay_sections(ents):
+        # one CELL block may carry its entries in several DELAY sections, with a TIMINGCHECK section anywhere in between
+        cut = rng.randrange(1, len(ents)) if len(ents) > 1 and rng.random() < 0.5 else len(ents)
+        lines.append('  (DELAY (ABSOLUTE ' + '\n    '.join(ents[:cut]) + '))')
+        if rng.random() < 0.3: lines.append('  (TIMINGCHECK (SETUP D (posedge CK) (0.1:0.1:0.1)))')
+        if ents[cut:]: lines.append('  (DELAY (ABSOLUTE ' + '\n    '.join(ents[cut:]) + '))')
     for kind, b in allb:
         if kind == 'cell':
             inst, ents = b
             lines.append(f' (CELL (CELLTYPE "{kinds[inst]}") (INSTANCE {sdf_name(inst)})')
-            lines.append('  (DELAY (ABSOLUTE ' + '\n    '.join(ents) + '))')
-            if rng.random() < 0.3: lines.append('  (TIMINGCHECK (SETUP D (posedge CK) (0.1:0.1:0.1)))')
+            delay_sections(ents)
             lines.append(' )')
         else:
             lines.append(f' (CELL (CELLTYPE "{cname}") (INSTANCE)')
-            lines.append('  (DELAY (ABSOLUTE ' + '\n    '.join(b) + '))')
+            delay_sections(b)
             lines.append(' )')
     lines.append(')')
     return '\n'.join(lines) + '\n'
@@ -327,7 +333,7 @@ def run(tier, seed):
         'obligations': int(rep.counts['obligations']), 'discharged': int(rep.counts['discharged']), 'rendered_texts': int(rep.counts['texts']),
         'explanation': 'per rendered SDF file: the real parser builds the IR, its literals become symbolic reals, the real iopaths()/interconnects() run on them (forking on the all-zero test) and z3 proves every array entry equal to the ground truth',
         'functions_encoded': common.fn_sha(sdf.DelayFile.iopaths, sdf.DelayFile.interconnects, sdf.SdfTransformer, sdf.DelayFile.__init__),
-        'bounds': {'circuits': list(CIRCUITS), 'groupings': '3 cell groupings x 5 interconnect groupings', 'branchforks': [True, False], 'values': '[0,1000] real'},
+        'bounds': {'circuits': list(CIRCUITS), 'groupings': '3 cell groupings x 5 interconnect groupings; entries of a block in one or two DELAY sections', 'branchforks': [True, False], 'values': '[0,1000] real'},
         'exhaustive': False,
         'summary': f'{len(J)} rendered files, {rep.counts["paths"]} paths, {rep.counts["obligations"]} obligations, {rep.counts["discharged"]} discharged',
     }
